@@ -138,9 +138,15 @@ TSkip == /\ l <= Len(Tr) /\ Rec.e \in {"Config", "Word", "Queue", "Reset"} /\ Co
 TPickup == /\ Ev("Idx") /\ UNCHANGED <<l, kn, barIn>> /\ ~HasTop(Rec.t)
            /\ \E d \in Das : /\ da[d].a = Rec.a \/ (da[d].a = -1 /\ \A e \in Das : da[e].a # Rec.a)
                              /\ PickupA(Rec.t, d, Rec.a)
-TSilent == /\ l <= Len(Tr) /\ UNCHANGED <<l, kn, barIn>>
-           /\ \E t \in Threads : PushConts(t) \/ Wake(t)
-                 \/ (HasTop(t) /\ Top(t).pc = "redir_resv" /\ Width(EffChain(da[Top(t).d].q)[Top(t).lvl]) = 1 /\ RedirResv(t))
+\* the others change only the thread's own frame (and the count of continuations a Pickup needs): it is enough to
+\* take them right before the record that needs them, which keeps a rejection cheap
+NeedsPush(t) == \/ Rec.t = t
+                \/ Rec.e = "Idx" /\ ~HasTop(Rec.t) /\ da[Top(t).d].a \in {-1, Rec.a}
+TSilent == /\ l <= Len(Tr) /\ "t" \in DOMAIN Rec /\ UNCHANGED <<l, kn, barIn>>
+           /\ \E t \in Threads :
+                 \/ HasTop(t) /\ Top(t).pc = "push" /\ NeedsPush(t) /\ PushConts(t)
+                 \/ Rec.t = t /\ Wake(t)
+                 \/ (Rec.t = t /\ HasTop(t) /\ Top(t).pc = "redir_resv" /\ Width(EffChain(da[Top(t).d].q)[Top(t).lvl]) = 1 /\ RedirResv(t))
 
 TNext == TCall \/ TRet \/ TStart \/ TEnd \/ TIdx \/ TTodo \/ TThr \/ TEvInc \/ TEvDec \/ TEvLoad
          \/ TStOpaque \/ TStPassive \/ TStOther \/ TResv \/ TRelq \/ TBStart \/ TBEnd \/ TQuiesce \/ TFree \/ TSkip
